@@ -403,6 +403,56 @@ theorem window_mono (c : Cfg) (fam : IsiFamily) (o : Oracles) (d : Draws) (obs H
     (h : applyOnWindow c fam o d obs H F yO yH yF = .ok out) : OrderPres F out :=
   window_orderPres c fam o d obs H F yO yH yF out hdet ho hh hf hela hL hc hdata hndL hndU hdL hdU h
 
+/-! ## 6b. event likelihood adjustment: the guard `eventLikelihoodAdjustment = false` is necessary (F22) -/
+
+/-- **F22** (known finding, inherent to the method — not a guard to hide behind): with `event_likelihood_adjustment = True`
+    step 6 maps the value of rank `i` to `ppf_obs_future(expit(L_obs_hist,i + clamp(L_cm_future,i − L_cm_hist,i)))`, and the
+    adjusted likelihood is **not** monotone in `i`.  Concrete witness on the executable model (tas-like configuration
+    without bounds, rational test family, `logit` / `expit` = the rational sigmoid's `G⁻¹` / `G` — strictly increasing and
+    mutually inverse —, `np.log(10)` ≈ `23/10`): `obs_hist = obs_future = cm_future = [0, 1, 2, 3]` (tie-free),
+    `cm_hist = [0, 1, 2, 10]` (one hot outlier): the future values `2 < 3` come out as `155/54 > 5/2`.
+    Every *other* guard of `step6_mono` holds on this instance, and the same call with the option off returns
+    `[0, 1, 2, 3]` (order preserving, as `step6_mono` says).  `decide +kernel` on a concrete witness. -/
+theorem step6_ela_can_reorder :
+    -- the remaining guards of `step6_mono`
+    (IsiLaws elaCfg Model.Isimip.ratSigmoid ∧ CfgOrdered elaCfg ∧ ∀ v ∈ ([0, 1, 2, 3] : List Rat), InBounds elaCfg v) ∧
+    -- the stand-ins for `expit` / `logit` are strictly increasing / inverse to each other
+    ((∀ a b : Rat, a < b → elaOracles.expit a < elaOracles.expit b) ∧ ∀ z : Rat, elaOracles.logit (elaOracles.expit z) = z) ∧
+    -- option on: `x_2 = 2 < x_3 = 3` but `out_2 = 155/54 > out_3 = 5/2`
+    step6 elaCfg Model.Isimip.ratSigmoid elaOracles [0, 1, 2, 3] [0, 1, 2, 3] [0, 1, 2, 10] [0, 1, 2, 3]
+      = .ok [-29 / 54, 7 / 6, 155 / 54, 5 / 2] ∧
+    ¬ OrderPres [0, 1, 2, 3] [-29 / 54, 7 / 6, 155 / 54, 5 / 2] ∧
+    -- control: the identical call with the option off
+    step6 tasCfg Model.Isimip.ratSigmoid elaOracles [0, 1, 2, 3] [0, 1, 2, 3] [0, 1, 2, 10] [0, 1, 2, 3]
+      = .ok [0, 1, 2, 3] := by
+  have e1 : sortQ [0, 1, 2, 3] = [0, 1, 2, 3] := sortQ_of_sorted_ela (by decide +kernel)
+  have e2 : sortQ [0, 1, 2, 10] = [0, 1, 2, 10] := sortQ_of_sorted_ela (by decide +kernel)
+  have e3 : argsort [0, 1, 2, 3] = [0, 1, 2, 3] := argsort_of_sorted_ela (by decide +kernel)
+  have e4 : rankOf [0, 1, 2, 3] = [0, 1, 2, 3] := by
+    unfold rankOf
+    rw [e3]
+    exact argsort_of_sorted_ela (l := [((0 : Nat) : Rat), ((1 : Nat) : Rat), ((2 : Nat) : Rat), ((3 : Nat) : Rat)])
+      (by decide +kernel)
+  refine ⟨⟨isiLaws_ela, cfgOrdered_unbounded elaCfg rfl rfl, fun v _ => ⟨rfl, rfl⟩⟩,
+    ⟨Lemmas.Family.ratSigmoid_laws.G_strictMono, Lemmas.Family.ratSigmoid_laws.Ginv_G⟩, ?_, ?_, ?_⟩
+  · unfold step6 step6Full
+    simp only [e1, e2, e3, e4]
+    decide +kernel
+  · intro h
+    have := h.2 2 3 (by decide) (by decide) (by decide +kernel)
+    revert this
+    decide +kernel
+  · unfold step6 step6Full
+    simp only [e1, e2, e3, e4]
+    decide +kernel
+
+-- the same instance in another storage order (compiled evaluation, `#guard`: the window sorts): values `2 < 3` at
+-- positions 0 and 2 receive `155/54 > 5/2`; with the option off the call returns its input
+#guard (match step6 elaCfg Model.Isimip.ratSigmoid elaOracles [3, 0, 2, 1] [1, 3, 0, 2] [10, 0, 2, 1] [2, 0, 3, 1] with
+  | .ok out => out == [155 / 54, -29 / 54, 5 / 2, 7 / 6] | .error _ => false)
+#guard (match step6 tasCfg Model.Isimip.ratSigmoid elaOracles [3, 0, 2, 1] [1, 3, 0, 2] [10, 0, 2, 1] [2, 0, 3, 1] with
+  | .ok out => out == [2, 0, 3, 1] | .error _ => false)
+
 /-! ## 7. the precipitation models inside parametric QuantileMapping (`Model/PrecipQM.lean`) -/
 
 /-- **hurdle model, every draw** (`u ≤ p0` — `np.random.uniform(0, p0)`; `p0` = dry fraction of `cm_hist`): zeros are
@@ -507,7 +557,9 @@ example : fixedArgs prZeroCfg = .ok (some 0, none) := by decide +kernel
     `detrending = True` (the per-year trend added back in step 7 differs between years, so order is preserved
     within a year only — outside the property's "within one window, detrending off" clause).
   * event likelihood adjustment (`event_likelihood_adjustment = True`, not a default of any variable):
-    `expit(L_obs_i + clamp(L_future_i − L_hist_i))` is not monotone in `i` in general; excluded by guard.
+    `expit(L_obs_i + clamp(L_future_i − L_hist_i))` is not monotone in `i` in general.  Nothing positive is claimed for
+    it: the guard of `step6_mono` is shown necessary by `step6_ela_can_reorder` (§6b), and the real code with the option
+    on is run by the oracle (`ela_cases` in `harness/c09.py`) — its inversions are the recorded known finding F22.
 -/
 
 end Props.C09
